@@ -17,7 +17,7 @@ func init() {
 	Register(&Profile{Prop: "C04", Fatal: []string{"C04."}, Run: runC04, Core: coreC04})
 }
 
-const c04NumMut = 19
+const c04NumMut = 21
 
 func coreC04(tier string) []RunSpec {
 	var out []RunSpec
@@ -143,6 +143,46 @@ func (m *MW) StepForge(forceMut, forceVia int) {
 	case 15: // Y itself as C (k=1)
 		pj["C"] = hY(p.Secret)
 		desc = "C = Y"
+	case 19, 20:
+		// a proof the mint really signed (it signs blindly) whose secret is longer than 512 BYTES:
+		// 513 ASCII bytes (19), or multi-byte characters that are more than 512 bytes but fewer
+		// than 512 characters (20)
+		long := strings.Repeat("a", 513)
+		desc = "genuine, secret 513 ASCII bytes"
+		if mk == 20 {
+			long = []string{strings.Repeat("é", 300), strings.Repeat("a", 511) + "é", strings.Repeat("€", 171)}[m.T.Choose("forge.mb", 3)]
+			desc = fmt.Sprintf("genuine, secret %d bytes in %d characters", len(long), len([]rune(long)))
+		}
+		var got *HProof
+		m.rc.Quietly(func() {
+			src := m.TakeFor(mint, 4)
+			if src == nil {
+				return
+			}
+			f := m.feeFor(mint, src)
+			amts := Split(SumH(src) - f)
+			outs := make([]*HOutput, len(amts))
+			for k, x := range amts {
+				sec := ""
+				if k == len(amts)-1 {
+					sec = long
+				}
+				outs[k] = m.W.NewOutput(x, ks.ID, sec)
+			}
+			ps, r := m.User.Swap(mint, src, outs)
+			if !r.OK() || len(ps) == 0 {
+				return
+			}
+			m.Spent[mint] = append(m.Spent[mint], src...)
+			got = ps[len(ps)-1]
+			m.User.remove(mint, []*HProof{got})
+		})
+		if got == nil {
+			return
+		}
+		p, base = got, []*HProof{got}
+		pj = got.J()
+		p.Gone = true // not an honest spendable proof: no "still spendable" expectation
 	case 16, 17, 18:
 		// forged from scratch, but the secret is a spending condition the forger can satisfy: a
 		// P2PK lock to its own key with a valid signature (16), a P2PK lock whose locktime has
